@@ -61,6 +61,14 @@ def foreign_sources(f, declared='cls'):
             if isinstance(v, ast.Call) and call_name(v) in ('get_class',
                                                             'get_class_by_name'):
                 src = 'lookup ' + call_name(v)
+            # x = next((c for c in subclasses if ...), default)
+            if isinstance(v, ast.Call) and call_name(v) == 'next' and v.args \
+                    and isinstance(v.args[0], (ast.GeneratorExp,
+                                               ast.ListComp)):
+                its = [unparse(g_.iter) for g_ in v.args[0].generators]
+                if any('get_subclasses' in i_ or i_ == 'subclasses'
+                       for i_ in its):
+                    src = 'member of get_subclasses() selected by the request'
             if src:
                 for t in n.targets:
                     for tt in (t.elts if isinstance(t, ast.Tuple) else [t]):
